@@ -556,9 +556,14 @@ impl<'a> Printer<'a> {
     fn ret_operand(&mut self, kw: &str, e: &Option<Box<Expr>>) {
         self.out.push_str(kw);
         if let Some(e) = e {
-            self.out.push_str(" (");
-            self.expr(e, 0);
-            self.out.push(')');
+            if self.parens == Parens::Full {
+                self.out.push_str(" (");
+                self.expr(e, 0);
+                self.out.push(')');
+            } else {
+                self.out.push(' ');
+                self.expr(e, 0);
+            }
         }
     }
 
